@@ -316,8 +316,10 @@ def stream_history(ctx):
         betas = dict(g.betas)
         betas['A_first'] = {'value': 0.75, 'fixed': False, 'positive': True, 'lb': None, 'ub': None}
         betas['z_last'] = {'value': -1.25, 'fixed': False, 'positive': False, 'lb': None, 'ub': None}
-        P = {'h': ['Bin', 'Plus'], 'k': [E, {'h': ['Bin', 'Times'], 'k': [{'h': ['Beta', 'A_first', False], 'k': []}, {'h': ['Var', 'x1'], 'k': []}]}]}
-        Q = {'h': ['Bin', 'Times'], 'k': [E, {'h': ['Beta', 'z_last', False], 'k': []}]}
+        # in half of the cases the shared object sits two levels below the roots of P and Q (E*1 + 0), not directly under them
+        Ed = E if rng.random() < 0.5 else {'h': ['Bin', 'Plus'], 'k': [{'h': ['Bin', 'Times'], 'k': [E, {'h': ['Num', 1, 0], 'k': []}]}, {'h': ['Num', 0, 0], 'k': []}]}
+        P = {'h': ['Bin', 'Plus'], 'k': [Ed, {'h': ['Bin', 'Times'], 'k': [{'h': ['Beta', 'A_first', False], 'k': []}, {'h': ['Var', 'x1'], 'k': []}]}]}
+        Q = {'h': ['Bin', 'Times'], 'k': [Ed, {'h': ['Beta', 'z_last', False], 'k': []}]}
         script = ['P', 'E', 'P', 'Q', 'P'] if rng.random() < 0.7 else ['P', 'Q', 'E', 'P']
         cases.append({'E': E, 'P': P, 'Q': Q, 'betas': betas, 'rows': g.rows(2), 'script': script})
     res = ctx.impl_cases('c01_history.py', cases, chunk=10)
@@ -358,6 +360,10 @@ MODEL_SCRIPTS = [
     # the same formula object evaluated again and again with temporary identifiers: another dictionary, then none
     [['gvc', 'E', 1], ['gvc', 'E', None], ['gvc', 'E', 0], ['gvc', 'P', 1], ['gvc', 'P', None], ['gvc', 'E', 1]],
     [['gvc', 'P', None], ['gvc', 'P', 1], ['gvc', 'P', None], ['gvc', 'Q', 1], ['gvc', 'Q', 0]],
+    # identifiers stored once (prepare), evaluations with prepare_ids=False, other formulas prepared / built in between
+    [['prep', 'P'], ['gvp', 'P', 0], ['new', 'Q'], ['gvp', 'P', 1], ['sim', 'Q', 0], ['gvp', 'P', 0]],
+    [['prep', 'P'], ['prep', 'Q'], ['gvp', 'P', 0], ['gvp', 'Q', 1], ['gvp', 'P', 1], ['prep', 'E'], ['gvp', 'Q', 0], ['gvp', 'E', 1]],
+    [['prep', 'Q'], ['gvp', 'Q', 1], ['gvc', 'P', 0], ['gvp', 'Q', 0], ['new', 'P'], ['gvp', 'Q', 1]],
 ]
 MODEL_SCRIPTS_ONE_ROW = [
     [['fn', 'P', 0], ['gvc', 'E', 1], ['fn', 'P', 1], ['new', 'Q'], ['fn', 'P', 0], ['sim', 'Q', 1]],
@@ -406,8 +412,10 @@ def stream_models(ctx):
         betas = dict(g.betas)
         betas['A_first'] = {'value': 0.75, 'fixed': False, 'positive': True, 'lb': None, 'ub': None}
         betas['z_last'] = {'value': -1.25, 'fixed': False, 'positive': False, 'lb': None, 'ub': None}
-        P = {'h': ['Bin', 'Plus'], 'k': [E, {'h': ['Bin', 'Times'], 'k': [{'h': ['Beta', 'A_first', False], 'k': []}, {'h': ['Var', 'x1'], 'k': []}]}]}
-        Q = {'h': ['Bin', 'Times'], 'k': [E, {'h': ['Beta', 'z_last', False], 'k': []}]}
+        # in half of the cases the shared object sits two levels below the roots of P and Q (E*1 + 0), not directly under them
+        Ed = E if rng.random() < 0.5 else {'h': ['Bin', 'Plus'], 'k': [{'h': ['Bin', 'Times'], 'k': [E, {'h': ['Num', 1, 0], 'k': []}]}, {'h': ['Num', 0, 0], 'k': []}]}
+        P = {'h': ['Bin', 'Plus'], 'k': [Ed, {'h': ['Bin', 'Times'], 'k': [{'h': ['Beta', 'A_first', False], 'k': []}, {'h': ['Var', 'x1'], 'k': []}]}]}
+        Q = {'h': ['Bin', 'Times'], 'k': [Ed, {'h': ['Beta', 'z_last', False], 'k': []}]}
         r = rng.random()
         if r < 0.25:
             script, nrows = rng.choice(MODEL_SCRIPTS_ONE_ROW), 1
@@ -425,13 +433,13 @@ def stream_models(ctx):
             ctx.violation(f'{ctx.pid}/models/exception', 'a history of models sharing a well-formed sub-formula failed',
                           {'script': c['script'], 'E': strip_sids(c['E'])}, None, r.get('crash') or r.get('build_exc'))
             continue
-        news = [i for i, s_ in enumerate(c['script']) if s_[0] == 'new']
-        late = any(s_[0] in ('sim', 'll', 'fn') and any(n > [j for j, t in enumerate(c['script']) if t[0] in ('new', 'fn') and t[1] == s_[1]][0] and n < i
+        news = [i for i, s_ in enumerate(c['script']) if s_[0] in ('new', 'prep')]
+        late = any(s_[0] in ('sim', 'll', 'fn', 'gvp') and any(n > [j for j, t in enumerate(c['script']) if t[0] in ('new', 'fn', 'prep') and t[1] == s_[1]][0] and n < i
                                                        for n in news)
                    for i, s_ in enumerate(c['script']))
         st.record({'E': strip_sids(c['E']), 'script': c['script']}, nontrivial=late)
         for step, (s_, vals) in enumerate(zip(c['script'], r['steps'])):
-            if s_[0] == 'new':
+            if s_[0] in ('new', 'prep'):
                 if vals != 'ok':
                     st.extra['steps_outside_domain'] = st.extra.get('steps_outside_domain', 0) + 1
                     break
